@@ -178,6 +178,14 @@ func checkAuthorize(r *Run, p *Prog) {
 		return
 	}
 	sites := p.AllCalls(func(o types.Object, _ *ast.CallExpr) bool { return IsFunc(o, authorize) })
+	// nobody outside the control package peeks at the controlled resource
+	if peek := p.Func(ctlPkg, "Gate", "PeekResource"); peek != nil {
+		for _, cs := range p.AllCalls(func(o types.Object, _ *ast.CallExpr) bool { return IsFunc(o, peek) }) {
+			if cs.Fn.InPkgs("cesium") && !cs.Fn.InPkgs(ctlPkg) {
+				r.Ob("C05.R1.authorize", "Gate.PeekResource used in "+cs.Fn.Top().Name, p.Position(cs.Call.Pos()), false, "the resource is reached without the authorization test: writes through it take effect for a writer that is not in control")
+			}
+		}
+	}
 	n := 0
 	for _, cs := range sites {
 		if !cs.Fn.InPkgs("cesium") {
@@ -186,6 +194,21 @@ func checkAuthorize(r *Run, p *Prog) {
 		n++
 		fn := cs.Fn
 		c := p.CFG(fn)
+		// no successful return of the writing function before the authorization
+		if fn.Decl != nil && (fn.Decl.Name.Name == "write" || fn.Decl.Name.Name == "Write") {
+			q0, vis0 := c.ReachAvoiding([]Point{c.Entry()}, nil, func(x ast.Node) bool { return contains(x, cs.Call) })
+			var early []string
+			for _, ex := range c.Exits() {
+				if ex.Return == nil || !vis0[ex.P] || len(ex.Return.Results) == 0 {
+					continue
+				}
+				if isNilIdent(fn, ex.Return.Results[len(ex.Return.Results)-1]) {
+					early = q0.PathTo(ex.P)
+				}
+			}
+			r.ObPath("C05.R1.authorize", fn.Name+" cannot succeed before Authorize", p.Position(fn.Pos()), early == nil,
+				"a write returns success on a path that never asked the gate: the series is relayed (and the shared cursor moved) for a writer that is not in control", early)
+		}
 		var res types.Object
 		inspectNoLit(fn.Body, func(x ast.Node) bool {
 			if as, ok := x.(*ast.AssignStmt); ok && len(as.Rhs) == 1 && ast.Unparen(as.Rhs[0]) == cs.Call && len(as.Lhs) == 2 {
